@@ -368,6 +368,6 @@ Proof.
         clear - Hin. induction (astack a tid') as [|[j y] r IHr]; simpl in *; auto.
         destruct (j =? id'); simpl in *; auto. destruct Hin; auto.
       - auto. }
-    intros Hin. eapply (Q evs ast0); eauto. intros t i x [].
+    intros Hin. eapply (Q evs ast0); eauto.
   - rewrite andb_false_r. simpl. destruct (allows (ds_max (e_statics e)) (m_level m)); reflexivity.
 Qed.
